@@ -518,6 +518,8 @@ type world struct {
 	am    *mgr.AlertMgr
 	names []string // internal names of interest
 	desc  string
+	// aliases: friend names that are second names of a router that already is a friend
+	aliases int
 }
 
 func buildWorld(r *rand.Rand) (*world, error) {
@@ -525,12 +527,18 @@ func buildWorld(r *rand.Rand) (*world, error) {
 	st := config.Store{System: config.System{DisableTun: true}, Router: config.Router{Listen: []string{"tcp://127.0.0.1:47369"}}}
 	pick := func() string { return labelPool[r.IntN(len(labelPool))] }
 	nf, nr, nm := r.IntN(5), r.IntN(6), r.IntN(6)
+	aliases := 0
 	for i := 0; i < nf; i++ {
 		name := pick()
 		if _, dup := rc.friends[name]; dup {
 			continue
 		}
 		ip := routable(r)
+		if len(st.FriendConfigs) > 0 && r.IntN(3) == 0 {
+			// an alias: a second name for a router that already is a friend (every name is a name of its own)
+			ip = netip.MustParseAddr(st.FriendConfigs[r.IntN(len(st.FriendConfigs))].IP)
+			aliases++
+		}
 		rc.friends[name] = ip
 		st.FriendConfigs = append(st.FriendConfigs, config.FriendConfig{Name: name, IP: ip.String()})
 	}
@@ -615,7 +623,8 @@ func buildWorld(r *rand.Rand) (*world, error) {
 	}
 	add("unknown-name.myco")
 	add("sub.router.myco")
-	w.desc = fmt.Sprintf("friends=%v resolve=%v mappings=%v", keys(rc.friends), keys(rc.resolve), keys(rc.mappings))
+	w.desc = fmt.Sprintf("friends=%v (%d of them second names of a friend) resolve=%v mappings=%v", keys(rc.friends), aliases, keys(rc.resolve), keys(rc.mappings))
+	w.aliases = aliases
 	return w, nil
 }
 
@@ -798,6 +807,9 @@ func runWorld(res *core.Result, r *rand.Rand, wire bool, tier core.Tier) {
 		return
 	}
 	defer w.conn.Close()
+	if w.aliases > 0 {
+		res.Count("configs_with_two_names_for_one_friend", 1)
+	}
 	ok := true
 	// (1) Lookup for every name of interest.
 	for _, n := range w.names {
